@@ -23,6 +23,7 @@ RULE = (
     "every fixture x 6 boundary values. Oracle: Y = save(load(X)); save(load(Y_n)) == Y_n for n = 1..3 (5 thorough); snapshot and raw link tables before save == "
     "after (for loaded and for freshly constructed objects); two saves of one object are identical; a loaded object saved before anyone looked at it writes the same bytes as one whose attributes were all read first, and reading them between two saves changes nothing, nor does unrelated use of the library (other modules with bindings, other files, failed loads) while the object stays alive; sources include MetaModules whose user-defined controllers are mapped onto embedded controllers of every kind. Files that do not load are outside the quantifier and counted. non-trivial = X carries an "
     "out-of-range stored value, or a freed link slot, or mutated option bytes"
+    ' Also (added while the seeded-change rounds of DESIGN section 9 ran): Also: MetaModule sources with mapped user controllers, stored-twice links, trailing empty positions with selections pointing into them, clone chains, interleaved saves with an unrelated project.'
 )
 ASSUMPTIONS = [
     "a mutant that the library refuses to load is outside the property's quantifier ('for any loadable file')",
